@@ -552,6 +552,11 @@ func chanKey(v reflect.Value) any {
 	return v.Pointer()
 }
 
+// ChanObj returns the identity under which channel ch takes part in happens-before hashing;
+// harness seams that act on a channel from outside (closing it, cancelling a context) must
+// attribute their scheduling point to it: verifrt.YieldOn(label, verifrt.ChanObj(ch)).
+func ChanObj(ch any) any { return chanKey(reflect.ValueOf(ch)) }
+
 // SelectRecv parks until at least one of the receive channels is ready and returns the index of
 // the case to take; among several ready cases the explorer chooses (Go's select is random).
 func SelectRecv(chans ...any) int {
@@ -594,6 +599,16 @@ func SelectRecv(chans ...any) int {
 		}
 		return false
 	})
+	// happens-before bookkeeping: the select depends on (reads readiness of, and receives from)
+	// every one of its channels — fold their last events into this thread's history and vice versa
+	t := s.cur
+	for _, v := range vs {
+		if id := s.objID(chanKey(v)); id != 0 {
+			h := mix(t.last, s.objLast[id], 0x5e1ec7)
+			t.last = h
+			s.objLast[id] = h
+		}
+	}
 	var ready []int
 	for i, v := range vs {
 		if chanRecvReady(v) {
